@@ -30,6 +30,10 @@ CLAIMED = {
          "Exploration (tier G on the captured graph).", REF, "7/C10"),
  "C11": ("vgraph", "property-based + metamorphic testing: subpattern DAGs rendered with references and AST-inlined; reference lexer from the inlined text; generate() equality with the inlined definition; planted undefined/forward references must be rejected",
          "Exploration (tier G).", REF, "7/C11"),
+ "C12": ("subjects", "differential (twin) property testing on compiled lexers: every str-mode subject is compiled a second time with utf8 = false in the same module; Ok tokens+spans and error byte sets compared on valid UTF-8 inputs",
+         "Exploration in 4 configurations. The second clause (byte-mode definitions with Unicode-aware patterns on arbitrary bytes never match across invalid sequences) is exercised by C01's byte-mode Unicode family against the reference; the acceptance clause by the generators' byte-class items (rejected definitions never become str subjects).", "Trusted: nothing beyond the two compiled twins (twin-against-twin).", "7/C12"),
+ "C13": ("subjects", "model-based property testing on compiled lexers: callbacks of every documented return type with pure decision functions; model = documented table applied to the stream of a callback-free twin (one unit variant per leaf) restarted at model positions; callback and error-callback logs compared; Skip-vs-skip-pattern twin",
+         "Exploration in 4 configurations over generated callback definitions (4 attachment forms, bumps, custom error type with From, optional error callback).", "Trusted: the callback-free twin of the same build for pattern selection (agreement with the regex language is C01's business).", "7/C13"),
  "C14": ("apicheck", "model-based (stateful) property testing: proptest op histories interpreted against the real Lexer and a reference model in lock-step; next() expected from a fresh lexer over the suffix",
          "Exploration over histories of {next, bump, clone, morph, spanned, accessors, extras} on fixed definition pairs (str and bytes, ordinary and partial) in 4 builds.", "Trusted: fixed hand-written definitions; fresh-lexer-over-suffix as the meaning of next().", "7/C14"),
  "C15": ("apicheck", "property-based testing with an arithmetic model (checked addition + boundary predicate) of bump, under catch_unwind, in debug/release x default/forbid_unsafe + ASan builds",
@@ -45,10 +49,7 @@ CLAIMED = {
  "C20": ("subjects", "property-based testing with a read-trace hook: per attempt, read offsets monotone, reads linear in bytes examined, first read at the attempt start; compiled lexers in 4 configurations",
          "Exploration over the core subject family; the adversarial long-input family is not yet included in this revision.", "Trusted: the verif_hooks trace records every LexerInternal::read.", "7/C20"),
 }
-PENDING = {
- "C12": "check not built yet in this revision of /verif (twin family planned, DESIGN.md section 7/C12)",
- "C13": "check not built yet in this revision of /verif (callback family planned, DESIGN.md section 7/C13)",
-}
+PENDING = {}
 
 checks = []
 na = []
@@ -85,7 +86,7 @@ m = {
  },
  "engines": [
   {"name": "vgraph", "path": "harness/vgraph", "serves_properties": ["C01", "C02", "C03", "C08", "C09", "C10", "C11", "C16", "C17", "C18", "C19"], "kind_free_text": "tier G/L/P: proptest-driven in-process checks linking logos-codegen (capture hook) and the reference model; drives logos-cli and rustc"},
-  {"name": "subjects", "path": "harness/subjgen + harness/subject-rt (generated crates under work/subjects)", "serves_properties": ["C01", "C02", "C03", "C04", "C05", "C06", "C07", "C20"], "kind_free_text": "tier X: generated #[derive(Logos)] subjects compiled in 4 feature configurations, proptest drivers inside the compiled binary, build-against-build dumps"},
+  {"name": "subjects", "path": "harness/subjgen + harness/subject-rt (generated crates under work/subjects)", "serves_properties": ["C01", "C02", "C03", "C04", "C05", "C06", "C07", "C12", "C13", "C20"], "kind_free_text": "tier X: generated #[derive(Logos)] subjects compiled in 4 feature configurations, proptest drivers inside the compiled binary, build-against-build dumps"},
   {"name": "apicheck", "path": "harness/apicheck", "serves_properties": ["C05", "C14", "C15"], "kind_free_text": "tier A: fixed definitions, proptest histories, debug/release x default/forbid_unsafe + ASan"},
  ],
  "checks": checks,
